@@ -188,6 +188,7 @@ ada_really_inline size_t find_next_host_delimiter_special(
     std::string_view view, size_t location) noexcept {
   // first check for short strings in which case we do it naively.
   if (view.size() - location < 16) {  // slow path
+    ADA_VERIF_COUNT(C_HOSTDELIM_SHORT);
     for (size_t i = location; i < view.size(); i++) {
       if (view[i] == ':' || view[i] == '/' || view[i] == '\\' ||
           view[i] == '?' || view[i] == '[') {
@@ -223,6 +224,7 @@ ada_really_inline size_t find_next_host_delimiter_special(
     }
   }
   if (i < view.size()) {
+    ADA_VERIF_COUNT(C_HOSTDELIM_TAIL);
     __m128i word =
         _mm_loadu_si128((const __m128i*)(view.data() + view.length() - 16));
     __m128i lowpart = _mm_shuffle_epi8(low_mask, _mm_and_si128(word, fmask));
@@ -258,6 +260,7 @@ ada_really_inline size_t find_next_host_delimiter_special(
     std::string_view view, size_t location) noexcept {
   // first check for short strings in which case we do it naively.
   if (view.size() - location < 16) {  // slow path
+    ADA_VERIF_COUNT(C_HOSTDELIM_SHORT);
     for (size_t i = location; i < view.size(); i++) {
       if (view[i] == ':' || view[i] == '/' || view[i] == '\\' ||
           view[i] == '?' || view[i] == '[') {
@@ -279,6 +282,7 @@ ada_really_inline size_t find_next_host_delimiter_special(
 
   // fast path for long strings (expected to be common)
   size_t i = location;
+  ADA_VERIF_COUNT(C_HOSTDELIM_SIMD);
   uint8x16_t low_mask =
       ada_make_uint8x16_t(0x00, 0x00, 0x00, 0x00, 0x00, 0x00, 0x00, 0x00, 0x00,
                           0x00, 0x01, 0x04, 0x04, 0x00, 0x00, 0x03);
@@ -300,6 +304,7 @@ ada_really_inline size_t find_next_host_delimiter_special(
   }
 
   if (i < view.size()) {
+    ADA_VERIF_COUNT(C_HOSTDELIM_TAIL);
     uint8x16_t word =
         vld1q_u8((const uint8_t*)view.data() + view.length() - 16);
     uint8x16_t lowpart = vqtbl1q_u8(low_mask, vandq_u8(word, fmask));
@@ -318,6 +323,7 @@ ada_really_inline size_t find_next_host_delimiter_special(
     std::string_view view, size_t location) noexcept {
   // first check for short strings in which case we do it naively.
   if (view.size() - location < 16) {  // slow path
+    ADA_VERIF_COUNT(C_HOSTDELIM_SHORT);
     for (size_t i = location; i < view.size(); i++) {
       if (view[i] == ':' || view[i] == '/' || view[i] == '\\' ||
           view[i] == '?' || view[i] == '[') {
@@ -328,6 +334,7 @@ ada_really_inline size_t find_next_host_delimiter_special(
   }
   // fast path for long strings (expected to be common)
   size_t i = location;
+  ADA_VERIF_COUNT(C_HOSTDELIM_SIMD);
   const __m128i mask1 = _mm_set1_epi8(':');
   const __m128i mask2 = _mm_set1_epi8('/');
   const __m128i mask3 = _mm_set1_epi8('\\');
@@ -349,6 +356,7 @@ ada_really_inline size_t find_next_host_delimiter_special(
     }
   }
   if (i < view.size()) {
+    ADA_VERIF_COUNT(C_HOSTDELIM_TAIL);
     __m128i word =
         _mm_loadu_si128((const __m128i*)(view.data() + view.length() - 16));
     __m128i m1 = _mm_cmpeq_epi8(word, mask1);
@@ -370,6 +378,7 @@ ada_really_inline size_t find_next_host_delimiter_special(
     std::string_view view, size_t location) noexcept {
   // first check for short strings in which case we do it naively.
   if (view.size() - location < 16) {  // slow path
+    ADA_VERIF_COUNT(C_HOSTDELIM_SHORT);
     for (size_t i = location; i < view.size(); i++) {
       if (view[i] == ':' || view[i] == '/' || view[i] == '\\' ||
           view[i] == '?' || view[i] == '[') {
@@ -380,6 +389,7 @@ ada_really_inline size_t find_next_host_delimiter_special(
   }
   // fast path for long strings (expected to be common)
   size_t i = location;
+  ADA_VERIF_COUNT(C_HOSTDELIM_SIMD);
   const __m128i mask1 = __lsx_vrepli_b(':');
   const __m128i mask2 = __lsx_vrepli_b('/');
   const __m128i mask3 = __lsx_vrepli_b('\\');
@@ -401,6 +411,7 @@ ada_really_inline size_t find_next_host_delimiter_special(
     }
   }
   if (i < view.size()) {
+    ADA_VERIF_COUNT(C_HOSTDELIM_TAIL);
     __m128i word =
         __lsx_vld((const __m128i*)(view.data() + view.length() - 16), 0);
     __m128i m1 = __lsx_vseq_b(word, mask1);
@@ -484,6 +495,7 @@ ada_really_inline size_t find_next_host_delimiter(std::string_view view,
                                                   size_t location) noexcept {
   // first check for short strings in which case we do it naively.
   if (view.size() - location < 16) {  // slow path
+    ADA_VERIF_COUNT(C_HOSTDELIM_SHORT);
     for (size_t i = location; i < view.size(); i++) {
       if (view[i] == ':' || view[i] == '/' || view[i] == '?' ||
           view[i] == '[') {
@@ -494,6 +506,7 @@ ada_really_inline size_t find_next_host_delimiter(std::string_view view,
   }
   // fast path for long strings (expected to be common)
   size_t i = location;
+  ADA_VERIF_COUNT(C_HOSTDELIM_SIMD);
   // Lookup tables for bit classification:
   // ':' (0x3A): low[0xA]=0x01, high[0x3]=0x01 -> match
   // '/' (0x2F): low[0xF]=0x02, high[0x2]=0x02 -> match
@@ -525,6 +538,7 @@ ada_really_inline size_t find_next_host_delimiter(std::string_view view,
   }
 
   if (i < view.size()) {
+    ADA_VERIF_COUNT(C_HOSTDELIM_TAIL);
     __m128i word =
         _mm_loadu_si128((const __m128i*)(view.data() + view.length() - 16));
     __m128i lowpart = _mm_shuffle_epi8(low_mask, _mm_and_si128(word, fmask));
@@ -547,6 +561,7 @@ ada_really_inline size_t find_next_host_delimiter(std::string_view view,
                                                   size_t location) noexcept {
   // first check for short strings in which case we do it naively.
   if (view.size() - location < 16) {  // slow path
+    ADA_VERIF_COUNT(C_HOSTDELIM_SHORT);
     for (size_t i = location; i < view.size(); i++) {
       if (view[i] == ':' || view[i] == '/' || view[i] == '?' ||
           view[i] == '[') {
@@ -568,6 +583,7 @@ ada_really_inline size_t find_next_host_delimiter(std::string_view view,
 
   // fast path for long strings (expected to be common)
   size_t i = location;
+  ADA_VERIF_COUNT(C_HOSTDELIM_SIMD);
   uint8x16_t low_mask =
       ada_make_uint8x16_t(0x00, 0x00, 0x00, 0x00, 0x00, 0x00, 0x00, 0x00, 0x00,
                           0x00, 0x01, 0x04, 0x00, 0x00, 0x00, 0x03);
@@ -589,6 +605,7 @@ ada_really_inline size_t find_next_host_delimiter(std::string_view view,
   }
 
   if (i < view.size()) {
+    ADA_VERIF_COUNT(C_HOSTDELIM_TAIL);
     uint8x16_t word =
         vld1q_u8((const uint8_t*)view.data() + view.length() - 16);
     uint8x16_t lowpart = vqtbl1q_u8(low_mask, vandq_u8(word, fmask));
@@ -607,6 +624,7 @@ ada_really_inline size_t find_next_host_delimiter(std::string_view view,
                                                   size_t location) noexcept {
   // first check for short strings in which case we do it naively.
   if (view.size() - location < 16) {  // slow path
+    ADA_VERIF_COUNT(C_HOSTDELIM_SHORT);
     for (size_t i = location; i < view.size(); i++) {
       if (view[i] == ':' || view[i] == '/' || view[i] == '?' ||
           view[i] == '[') {
@@ -617,6 +635,7 @@ ada_really_inline size_t find_next_host_delimiter(std::string_view view,
   }
   // fast path for long strings (expected to be common)
   size_t i = location;
+  ADA_VERIF_COUNT(C_HOSTDELIM_SIMD);
   const __m128i mask1 = _mm_set1_epi8(':');
   const __m128i mask2 = _mm_set1_epi8('/');
   const __m128i mask4 = _mm_set1_epi8('?');
@@ -635,6 +654,7 @@ ada_really_inline size_t find_next_host_delimiter(std::string_view view,
     }
   }
   if (i < view.size()) {
+    ADA_VERIF_COUNT(C_HOSTDELIM_TAIL);
     __m128i word =
         _mm_loadu_si128((const __m128i*)(view.data() + view.length() - 16));
     __m128i m1 = _mm_cmpeq_epi8(word, mask1);
@@ -654,6 +674,7 @@ ada_really_inline size_t find_next_host_delimiter(std::string_view view,
                                                   size_t location) noexcept {
   // first check for short strings in which case we do it naively.
   if (view.size() - location < 16) {  // slow path
+    ADA_VERIF_COUNT(C_HOSTDELIM_SHORT);
     for (size_t i = location; i < view.size(); i++) {
       if (view[i] == ':' || view[i] == '/' || view[i] == '?' ||
           view[i] == '[') {
@@ -664,6 +685,7 @@ ada_really_inline size_t find_next_host_delimiter(std::string_view view,
   }
   // fast path for long strings (expected to be common)
   size_t i = location;
+  ADA_VERIF_COUNT(C_HOSTDELIM_SIMD);
   const __m128i mask1 = __lsx_vrepli_b(':');
   const __m128i mask2 = __lsx_vrepli_b('/');
   const __m128i mask4 = __lsx_vrepli_b('?');
@@ -682,6 +704,7 @@ ada_really_inline size_t find_next_host_delimiter(std::string_view view,
     }
   }
   if (i < view.size()) {
+    ADA_VERIF_COUNT(C_HOSTDELIM_TAIL);
     __m128i word =
         __lsx_vld((const __m128i*)(view.data() + view.length() - 16), 0);
     __m128i m1 = __lsx_vseq_b(word, mask1);
@@ -875,6 +898,7 @@ ada_really_inline void parse_prepared_path(std::string_view input,
   }
   if (trivial_path) {
     ada_log("parse_path trivial");
+    ADA_VERIF_COUNT(C_PATH_TRIVIAL);
     path += '/';
     path += input;
     return;
@@ -889,6 +913,7 @@ ada_really_inline void parse_prepared_path(std::string_view input,
       (type != ada::scheme::type::FILE);
   if (fast_path) {
     ada_log("parse_prepared_path fast");
+    ADA_VERIF_COUNT(C_PATH_FAST);
     // Here we don't need to worry about \ or percent encoding.
     // We also do not have a file protocol. We might have dots, however,
     // but dots must as appear as '.', and they cannot be encoded because
@@ -938,6 +963,7 @@ ada_really_inline void parse_prepared_path(std::string_view input,
     } while (true);
   } else {
     ada_log("parse_path slow");
+    ADA_VERIF_COUNT(C_PATH_SLOW);
     // we have reached the general case
     bool needs_percent_encoding = (accumulator & 1);
     std::string path_buffer_tmp;
